@@ -6,12 +6,12 @@ mkdir -p /tmp/r2cand /tmp/r2res
 for d in "$WT"/out/[A-D]; do
   [ -f "$d/patch.diff" ] || continue
   X=$(basename "$d"); L=${P}${K}${X}
-  [ -f /tmp/r2res/$L.checks ] && continue
-  rm -rf /tmp/r2cand/$L; cp -r "$d" /tmp/r2cand/$L
+  [ -d /tmp/r2cand/$L ] || cp -r "$d" /tmp/r2cand/$L
   if [ "$K" = m ]; then
-    /verif/tools/check_seed.sh /tmp/r2cand/$L/patch.diff > /tmp/r2res/$L.checks 2>&1
-    /verif/tools/eval_seed.sh /tmp/r2cand/$L $L > /tmp/r2res/$L.confirm 2>&1
+    [ -f /tmp/r2res/$L.checks ] || /verif/tools/check_seed.sh /tmp/r2cand/$L/patch.diff > /tmp/r2res/$L.checks 2>&1
+    grep -q "demo with change" /tmp/r2res/$L.confirm 2>/dev/null || /verif/tools/eval_seed.sh /tmp/r2cand/$L $L > /tmp/r2res/$L.confirm 2>&1
   else
+    [ -f /tmp/r2res/$L.checks ] && continue
     /verif/tools/eval_refactor.sh /tmp/r2cand/$L $L > /tmp/r2res/$L.summary 2>&1
     cp /tmp/refres/$L.txt /tmp/r2res/$L.checks 2>/dev/null
   fi
